@@ -71,6 +71,8 @@ Init ==
           /\ lo \in -1..3 /\ hi \in -1..3 /\ (hi >= 0 => lo <= hi)
        \/ /\ kind \in {"let", "class", "tmpl"} /\ sp = 1 /\ lo = 0 /\ hi = 0
           /\ nf \in NamedForms /\ opts = <<TRUE, FALSE, TRUE, FALSE>>
+       \/ /\ kind = "letctx" /\ sp = 1 /\ lo = 0 /\ hi = 0        \* the context is INSIDE the let: the list itself is the alternative
+          /\ nf \in NamedForms /\ opts = <<TRUE, FALSE, TRUE, FALSE>> /\ ctx # 0
        \/ /\ kind = "sep" /\ lo = 0 /\ hi = 0 /\ nf = ""
           /\ sp \in 1..Len(Seps)
           /\ opts \in {<<d, t, e, r>> : d \in Bools, t \in Bools, e \in Bools, r \in Bools}
@@ -79,11 +81,12 @@ Init ==
 Core ==
     CASE kind = "rep"   -> Rep(Elems[el], B(lo), B(hi))
       [] kind = "let"   -> Let("n", Digit, NamedRep(Elems[el], nf))
+      [] kind = "letctx" -> Let("n", Digit, Ctx(ctx, NamedRep(Elems[el], nf)))
       [] kind = "class" -> Ref("C")
       [] kind = "tmpl"  -> Let("k", Digit, Call("T", <<Pos(Ref("k"))>>))
       [] kind = "sep"   -> Sep(Elems[el], Seps[sp], opts)
 
-G == [rules |-> [start |-> Rule(Ctx(ctx, Core)),
+G == [rules |-> [start |-> Rule(IF kind = "letctx" THEN Core ELSE Ctx(ctx, Core)),
                  A |-> Rule(Seq2(Str(<<a>>), Opt(Str(<<b>>)))),
                  C |-> Class(<<LetF("n", Digit), Field("items", NamedRep(Elems[el], IF nf = "" THEN "nn" ELSE nf))>>),
                  T |-> RuleP(<<"n">>, NamedRep(Elems[el], IF nf = "" THEN "nn" ELSE nf))],
@@ -102,7 +105,7 @@ WithDigits(ts, i) ==
 
 DigitTexts == WithDigits(Bodies, 1) \o << <<>>, <<a>>, <<a, a>> >>
 
-Texts == IF kind \in {"let", "class", "tmpl"} THEN DigitTexts ELSE Bodies
+Texts == IF kind \in {"let", "class", "tmpl", "letctx"} THEN DigitTexts ELSE Bodies
 
 Step == /\ ~done
         /\ done' = TRUE
